@@ -107,6 +107,20 @@ class Model:
     def method(self, ref, fn, name):
         return VBound(ref, VNative(lambda it, a, k: fn(it, a[0], a[1:], k), f"{self.cls_name}.{name}"))
 
+    def havoc(self, it, ref):
+        """A callee's contract lists this object under `modifies`: every data field becomes
+        arbitrary (references to other model objects are kept)."""
+        cell = it.path.heap[ref.addr]
+        for k, v in list(cell.fields.items()):
+            if isinstance(v, V) and not isinstance(v, VRef):
+                try:
+                    nv = it.path.fresh_like(v, f"{self.cls_name}.{k}")
+                except Unsupported:
+                    continue
+                for f in vals.wellformed(nv):
+                    it.path.assume(f)
+                cell.fields[k] = nv
+
 
 def new(it, model, fields):
     return VRef(it.path.alloc(Cell(cls=model.cls_name, fields=dict(fields), native=model)), model.cls_name)
